@@ -161,6 +161,21 @@ pub fn replay_with(pass: &Pass, program: &[String], prefix_len: usize) -> i32 {
             return 2;
         }
     };
+    if std::env::var("FJV_DEBUG_REPLAY").is_ok() {
+        // step-by-step dump: content of every keyspace and LSM shape after each operation
+        use lsm_tree::AbstractTree;
+        if let Ok(mut w) = pass.prop.init(crate::explore::fresh_dir()) {
+            for op in &ops {
+                let r = pass.prop.apply(&mut w, op);
+                let mut desc = vec![];
+                for (i, h) in &w.ks {
+                    let content = crate::core::scan_ks(h).map(|m| crate::core::show_map(&m)).unwrap_or_else(|e| e);
+                    desc.push(format!("{}: scan={} get(b)={:?} persisted={:?} highest={:?} tables={} sealed={} active={}", ksn(*i), content, h.get("b").ok().flatten().map(|v| String::from_utf8_lossy(&v).into_owned()), h.tree.get_highest_persisted_seqno(), h.tree.get_highest_seqno(), h.tree.table_count(), h.tree.sealed_memtable_count(), h.tree.active_memtable().len()));
+                }
+                println!("  {op} -> {:?}\n      {}\n      journals={:?} seqno={}", r.map_err(|v| v.detail), desc.join("\n      "), journal_files(&w.dir), w.db.as_ref().map(|d| d.inner().seqno()).unwrap_or(0));
+            }
+        }
+    }
     match run_program(&pass.prop, &ops, 0, None) {
         RunResult::Ok { .. } => {
             println!("replay: program satisfied the oracle (no violation)");
